@@ -23,6 +23,8 @@ func init() {
 	core.Register(&core.Check{
 		ID:    "C03",
 		Level: "model_checking",
+		// generous internal deadline: the run takes 1-2 minutes on an idle machine and several times that next to other jobs
+		QuickBudget: 900,
 		Rule: "G1 capture/shadowing: all combinations of {assignment before definition, between definition and call, after the first call} x 12 body shapes (read, :=, +=, derived local, inner closure created before a local reassignment, inner assignment, closure returned and called later, sibling closures sharing a frame, two-variable shadowing, closure over a parameter, nested definition scopes) x wrapper nesting 0..2; " +
 			"G2 binding: parameter lists {0..3 positional} x {0..2 keyword} x every argument list of length <=5 (thorough 6) over {positionals, k:, j:, unknown z:, *[0..2 elements], **{k}, **{j,k}, **{w,b}; up to two ** with disjoint names} respecting the grammar, probing parameters and \\ \\N \\0 \\name \\_; " +
 			"G3 receiver passing: function vs method properties x call forms (o.p(x), o['p](o,x), extracted) x anonymous chains in functions, methods and nested literal calls; G4 recursion depth 0..4 with per-frame locals and escaping closures; " +
